@@ -23,6 +23,12 @@ CHECKS = {
  'C08': ('bounded-exhaustive lattice enumeration (truly exhaustive for Choose/Lchoose n<=1000) against closed-form 640-bit references and gonum/mathext',
          'BetaInc on a 23x23 (thorough 32x32) parameter lattice x ~82 arguments including both sides of the branch switch-over, GammaInc/GammaIncComp on 13 (23) values of a x ~92 arguments including x=a+1 +-2 ulp, all 503k (n,k) pairs for Choose/Lchoose, Beta on the lattice, Sign on 11 values.',
          'gonum/mathext (cephes lineage) is the oracle for non-integer parameters; its agreement with the closed forms is measured on every integer point of the lattice', '4/C08'),
+ 'C18': ('bounded-exhaustive enumeration of all small digraphs/multigraphs, subgraph requests, graph pairs and strings + explicit-state BFS over NodeMarks histories (state = model set + reflection-read storage length), definitional references',
+         'All digraphs on <=4 (5) nodes x roots, all multigraphs on <=3 nodes with lists <=3, structured graphs up to 100000 nodes crossing every growth boundary, every Keep/Remove request on every 3-node digraph, every pair of small multigraphs, every string of length <=5 over the escaping alphabet, and all Mark/Unmark histories to depth 4 (thorough: the complete reachable state space) from both initial states.',
+         'big graphs use an independent Kosaraju partition as SCC reference (validated against mutual reachability on every small graph); set-valued lists compared as sets', '4/C18'),
+ 'C19': ('bounded-exhaustive enumeration of all small rooted digraphs/multigraphs on the real IDom/Dom/DomFrontier against dominance decided by node deletion and reachability',
+         'All digraphs on <=4 (5) nodes x every root, all multigraphs on <=3 nodes with lists <=3, and complete structured families up to 200 nodes (irreducible ladders, complete graphs, circulant multigraphs, unreachable feeders into reachable joins). Panics are violations; non-termination is caught by a 90 s watchdog.',
+         'root membership in frontiers compared only when the root has 0 or >=2 incoming edges; frontiers of unreachable nodes unconstrained; non-termination observed, not proved', '4/C19'),
 # --- end of table ---
 }
 NOT_BUILT = 'check not built yet (work in progress; no claim made)'
